@@ -1,7 +1,97 @@
 package main
 
-// Counterexample replay against the real code (filled in below per property).
+// Counterexample replay against the real code: the model of a failed
+// obligation seeds a per-function public-API oracle (in /verif/replay) that is
+// injected into the package with `go test -overlay` and run on the model's
+// input and a small neighbourhood of it.
+
+import (
+	"context"
+	"encoding/json"
+	"fmt"
+	"os"
+	"os/exec"
+	"path/filepath"
+	"strings"
+	"time"
+)
+
+var optRepo = "/repo"
+
+var replayCache = map[string]string{}
 
 func replayCounterexample(prop string, r *Result, rp map[string]interface{}, verifDir string) bool {
+	// obligation name: pkg.Func[class]/kind...
+	name := r.Ob.Func
+	class := ""
+	if i := strings.Index(name, "["); i >= 0 {
+		class = strings.TrimSuffix(name[i+1:], "]")
+		name = name[:i]
+	}
+	dot := strings.Index(name, ".")
+	if dot < 0 {
+		return false
+	}
+	pkg, fn := name[:dot], name[dot+1:]
+	oracle := filepath.Join(verifDir, "replay", pkg+".go.txt")
+	src, err := os.ReadFile(oracle)
+	if err != nil {
+		rp["replay"] = "no oracle file for package " + pkg
+		return false
+	}
+	common, _ := os.ReadFile(filepath.Join(verifDir, "replay", "common.go.txt"))
+	tmp, err := os.MkdirTemp("", "govc-replay-")
+	if err != nil {
+		return false
+	}
+	defer os.RemoveAll(tmp)
+	testFile := filepath.Join(tmp, "zz_verif_replay_test.go")
+	os.WriteFile(testFile, append(append(src, '\n'), common...), 0o644)
+	pkgDir := pkg
+	if pkg == "typ" {
+		pkgDir = "."
+	}
+	target := filepath.Join(optRepo, pkgDir, "zz_verif_replay_test.go")
+	ov, _ := json.Marshal(map[string]interface{}{"Replace": map[string]string{target: testFile}})
+	ovFile := filepath.Join(tmp, "overlay.json")
+	os.WriteFile(ovFile, ov, 0o644)
+	model := r.ModelKV
+	if model == nil {
+		model = map[string]string{}
+	}
+	req, _ := json.Marshal(map[string]interface{}{"func": fn, "obligation": r.Ob.Name, "model": model, "class": class})
+	key := string(req)
+	key = pkg + "|" + fn + "|" + class
+	if out, ok := replayCache[key]; ok && strings.Contains(out, "REPLAY-FAIL") {
+		rp["replay_output"] = out
+		rp["replay"] = "confirmed on the real code (same failing input as a sibling obligation)"
+		return true
+	}
+	ctx, cancel := context.WithTimeout(context.Background(), 120*time.Second)
+	defer cancel()
+	args := []string{"test", "-overlay", ovFile, "-vet=off", "-count=1", "-timeout", "60s", "-run", "^TestVerifReplay$", "./" + pkgDir}
+	if strings.Contains(r.Ob.Kind, "shared") {
+		args = append(args[:1], append([]string{"-race"}, args[1:]...)...)
+	}
+	cmd := exec.CommandContext(ctx, "go", args...)
+	cmd.Dir = optRepo
+	cmd.Env = append(os.Environ(), "GOFLAGS=-mod=mod", "GOPROXY=off", "GOSUMDB=off", "GOTOOLCHAIN=local", "VERIF_REPLAY="+string(req))
+	out, _ := cmd.CombinedOutput()
+	text := truncate(string(out), 3000)
+	replayCache[key] = text
+	rp["replay_cmd"] = "cd " + optRepo + " && VERIF_REPLAY='" + string(req) + "' go " + strings.Join(args, " ")
+	rp["replay_output"] = text
+	if strings.Contains(text, "REPLAY-FAIL") {
+		for _, ln := range strings.Split(text, "\n") {
+			if strings.HasPrefix(ln, "REPLAY-FAIL") {
+				rp["failing_input"] = strings.TrimPrefix(ln, "REPLAY-FAIL ")
+				fmt.Println("  replayed on the real code:", strings.TrimPrefix(ln, "REPLAY-FAIL "))
+				break
+			}
+		}
+		rp["replay"] = "confirmed on the real code"
+		return true
+	}
+	rp["replay"] = "the oracle found no failing input near the model (or no oracle exists for this function)"
 	return false
 }
